@@ -464,8 +464,8 @@ def body_forms(case, ctx):
     kappa = np.linalg.cond(ref.K_xx)
     tol = (1e-9 + 100 * kappa * EPS)
     # single precision holds these whole numbers exactly, but arithmetic that stays in float32 is coarser: allow its epsilon there
-    if "float32" in f.values():
-        tol = max(tol, 1e-5 * max(kappa, 1.0))
+    # (single precision holds these whole numbers exactly: the same data, so the same answer - an earlier version allowed float32's
+    # epsilon "for arithmetic that stays in float32", i.e. excused the implementation for computing in the input's type)
     sc_mu = np.max(np.abs(mu0)) + np.max(np.abs(y)) + 1.0
     # (co)variances are differences of prior-sized terms: judged at the scale of the prior variance, not of a posterior variance that
     # may be orders of magnitude smaller (a query on a noise-free training point)
